@@ -216,6 +216,20 @@ Definition run_codec {A} (c : codec A) (bs : list Z) : list Z :=
   | DErr al => [0; al]
   | DPanic => [9]
   end.
+(** long inputs are built inside Coq (a list literal of tens of thousands of numbers is beyond the parser's and the printer's
+    recursion depth): prefix ++ k blocks taken cyclically from a pool; the answer is a summary - status, largest
+    capacity requested, unread bytes, and whether the re-encoding equals prefix' ++ the same blocks *)
+Definition cycle_bytes (pool : list (list Z)) (k : Z) : list Z :=
+  flat_map (fun i => nth (Nat.modulo i (length pool)) pool []) (seq 0 (Z.to_nat k)).
+Fixpoint list_zeqb (a b : list Z) : bool :=
+  match a, b with [], [] => true | x :: a, y :: b => (x =? y) && list_zeqb a b | _, _ => false end.
+Definition run_codec_long {A} (c : codec A) (prefix : Z) (pool : list (list Z)) (k : Z) : list Z :=
+  let input := Z_to_le 8 prefix ++ cycle_bytes pool k in
+  match dec c input with
+  | DOk a rest al => [1; al; Z.of_nat (length rest); b2z (list_zeqb (enc c a) input)]
+  | DErr al => [0; al]
+  | DPanic => [9]
+  end.
 Definition lock_okq (lock secret : K) (index : Z) : bool :=
   match lock_of q_bls sha3_256_z enc_scalar secret index with Some l => feqb l lock | None => false end.
 
@@ -247,3 +261,9 @@ Definition r_close (pk : pkey K) (st : stage K) (rho : Z) : list Z :=
   | Some (sg, s) => 1 :: vsig sg ++ enc_cs s ++ [b2z (check_close closeK pk sg s)]
   | None => [0]
   end.
+
+(** channel id text form *)
+From ZK Require Import Model.Base64.
+Definition r_cid_print (bs : list Z) : list Z := cid_print bs.
+Definition r_cid_parse (cs : list Z) : list Z :=
+  match cid_parse cs with CidOk bs => 1 :: bs | CidIncorrectLength n => [2; n] | CidDecodeError => [3] end.
